@@ -41,21 +41,25 @@ type Scenario struct {
 	Rounds     int      `json:"rounds"`
 	Register   int      `json:"register,omitempty"`
 	Receiving  int      `json:"receiving,omitempty"`
+	Gated      bool     `json:"gated,omitempty"`
+	Backlog    bool     `json:"backlog,omitempty"`
 }
 
 type Outcome struct {
-	Scenario    int                 `json:"scenario"`
-	Round       int                 `json:"round"`
-	Statuses    map[string]int      `json:"statuses"`
-	Channels    []string            `json:"channels"`
-	Goroutines  int                 `json:"goroutines"`
-	Tracks      map[string][]string `json:"tracks"`
-	Files       map[string][]string `json:"files"`
-	MPDs        map[string]bool     `json:"mpds"`
-	Masters     map[string]string   `json:"masters"`
-	TrIDs       map[string][]string `json:"trids"`
-	RegOutcomes map[string]int      `json:"reg_outcomes,omitempty"`
-	Hangs       int                 `json:"hangs,omitempty"`
+	Scenario    int                            `json:"scenario"`
+	Round       int                            `json:"round"`
+	Statuses    map[string]int                 `json:"statuses"`
+	Channels    []string                       `json:"channels"`
+	Goroutines  int                            `json:"goroutines"`
+	Tracks      map[string][]string            `json:"tracks"`
+	Files       map[string][]string            `json:"files"`
+	MPDs        map[string]bool                `json:"mpds"`
+	Masters     map[string]string              `json:"masters"`
+	TrIDs       map[string][]string            `json:"trids"`
+	RegOutcomes map[string]int                 `json:"reg_outcomes,omitempty"`
+	Hangs       int                            `json:"hangs,omitempty"`
+	Buffers     map[string]map[string][]uint32 `json:"buffers,omitempty"`
+	Latest      map[string]uint32              `json:"latest,omitempty"`
 }
 
 type race struct {
@@ -145,6 +149,19 @@ func scenarios(c *lib.Ctx, rng *rand.Rand) []Scenario {
 		scs = append(scs, Scenario{Tracks: oneVideoTracks(n), Register: reg})
 	}
 	scs = append(scs, Scenario{Tracks: mkTracks(5), Register: reg}) // two video tracks: either may be the master
+	// the scale of the quantifier: every first upload of up to 8 tracks x 4 channels in flight at the same time
+	// (bodies stop half-way until all are in flight), through the receiver's router
+	for _, cfg := range [][2]int{{3, 6}, {4, 5}, {4, 8}, {2, 8}} {
+		var chs []string
+		for k := 0; k < cfg[0]; k++ {
+			chs = append(chs, fmt.Sprintf("g%d", k))
+		}
+		scs = append(scs, Scenario{Channels: chs, Tracks: mkTracks(cfg[1]), Gated: true, Rounds: 1 + rounds/4})
+	}
+	// more messages outstanding than the channel's queue holds while the channel goroutine waits for the MPD mutex
+	for _, n := range []int{6, 8} {
+		scs = append(scs, Scenario{Channels: []string{"bl"}, Tracks: oneVideoTracks(n), Backlog: true, Rounds: rounds / 2})
+	}
 	// tracks that register (and re-send their init) while media chunks of the first track are being processed
 	recvRounds := 150
 	if c.Thorough() {
@@ -438,8 +455,12 @@ func run(c *lib.Ctx) error {
 			c.Fail(id, "channel-objects", fmt.Sprintf("%d channel names, %d channel objects (goroutines) for %d channels", len(o.Channels), o.Goroutines, len(sc.Channels)), sc)
 			continue
 		}
-		if o.Statuses["200"] != 2*len(sc.Channels)*len(sc.Tracks) {
-			c.Fail(id, "upload-refused", fmt.Sprintf("statuses %v for %d uploads", o.Statuses, 2*len(sc.Channels)*len(sc.Tracks)), sc)
+		nUp := 2 * len(sc.Channels) * len(sc.Tracks)
+		if sc.Backlog {
+			nUp = 6 * len(sc.Tracks)
+		}
+		if o.Statuses["200"] != nUp {
+			c.Fail(id, "upload-refused", fmt.Sprintf("statuses %v for %d uploads", o.Statuses, nUp), sc)
 			continue
 		}
 		var want []string
@@ -475,6 +496,10 @@ func run(c *lib.Ctx) error {
 			r, ok := ref[o.Scenario+1]
 			if ok {
 				for _, ch := range sc.Channels {
+					if fmt.Sprint(o.Buffers[ch]) != fmt.Sprint(r.Buffers[ch]) || o.Latest[ch] != r.Latest[ch] {
+						c.Fail(id, "final-state-differs-from-sequential", fmt.Sprintf("channel %s: every upload was answered 200, but the per-track segment buffers %v and the newest published number %d differ from the sequential run's %v and %d", ch, o.Buffers[ch], o.Latest[ch], r.Buffers[ch], r.Latest[ch]), sc)
+						break
+					}
 					if strings.Join(o.Files[ch], ",") != strings.Join(r.Files[ch], ",") || o.MPDs[ch] != r.MPDs[ch] {
 						c.Fail(id, "files-differ-from-sequential", fmt.Sprintf("channel %s stores %v (mpd %v), the sequential run %v (mpd %v)", ch, o.Files[ch], o.MPDs[ch], r.Files[ch], r.MPDs[ch]), sc)
 						break
